@@ -7,7 +7,7 @@
     against what the code says now.  (They are the soft half of the tie, DESIGN.md section 2.3: a
     failure here is reported as TIE-DEGRADED, not as a violation.) *)
 From SSZ Require Import Base RustSem Offsets Encoder Builder Bitfield BaseFacts OffsetsFacts
-     Layout LayoutFacts BuilderFacts EncoderFacts BitfieldFacts Generated GenEquiv.
+     Layout LayoutFacts BuilderFacts EncoderFacts BitfieldFacts BitfieldOps BitfieldOpsFacts Generated GenEquiv.
 From Coq Require Import ZArith ZifyN ZifyBool ZifyNat Lia.
 Open Scope N_scope.
 
@@ -143,6 +143,45 @@ Proof.
     split; [exact H0|]. split; [exact H2 | exact H1].
 Qed.
 
+(** [shift_up(n)] as written in the source: for [n <= len] it succeeds, keeps the length and the
+    invariant, and moves every bit up by [n] with zeroes below; for [n > len] it fails (C11). *)
+Theorem Src_C11_shift_up b n :
+  Inv (bf_abs b) ->
+  (n <= Gen.Bitfield_len b ->
+   exists b', Gen.bitfield_shift_up b n = Ok b' /\ Inv (bf_abs b') /\
+              Gen.Bitfield_len b' = Gen.Bitfield_len b /\
+              (forall j, bit_at (Gen.Bitfield_bytes b') j =
+                         if j <? n then false
+                         else if j <? Gen.Bitfield_len b then bit_at (Gen.Bitfield_bytes b) (j - n) else false))
+  /\ (Gen.Bitfield_len b < n -> Gen.bitfield_shift_up b n = Err).
+Proof.
+  intro HI. pose proof (gen_bitfield_shift_up_eq b n) as E. split.
+  - intro Hn. destruct (shift_up_spec (bf_abs b) n HI Hn) as (m & Hm & HIm & Hlen & Hbits).
+    rewrite Hm in E. destruct (Gen.bitfield_shift_up b n) as [b'| |]; cbn [omap] in E; try discriminate.
+    injection E as E. subst m. exists b'.
+    split; [reflexivity|]. split; [exact HIm|]. split; [exact Hlen | exact Hbits].
+  - intro Hn. unfold shift_up in E. change (bf_len (bf_abs b)) with (Gen.Bitfield_len b) in E.
+    replace (n <=? Gen.Bitfield_len b) with false in E by lia.
+    destruct (Gen.bitfield_shift_up b n); cbn [omap] in E; try discriminate. reflexivity.
+Qed.
+
+(** [difference_inplace] as written in the source never fails and clears exactly the bits of the
+    other operand (positions the other operand does not have count as unset) (C12). *)
+Theorem Src_C12_difference_inplace a o :
+  exists a', Gen.bitfield_difference_inplace a o = Ok a' /\
+             Gen.Bitfield_len a' = Gen.Bitfield_len a /\
+             (forall i, bit_at (Gen.Bitfield_bytes a') i
+                        = bit_at (Gen.Bitfield_bytes a) i && negb (bit_at (Gen.Bitfield_bytes o) i)).
+Proof.
+  pose proof (gen_bitfield_difference_inplace_eq a o) as E.
+  destruct (Gen.bitfield_difference_inplace a o) as [a'| |]; cbn [omap] in E; try discriminate.
+  assert (E' : bf_abs a' = difference_inplace (bf_abs a) (bf_abs o)) by congruence.
+  clear E. exists a'. split; [reflexivity|]. split.
+  - change (Gen.Bitfield_len a') with (bf_len (bf_abs a')). rewrite E'. reflexivity.
+  - intro i. change (Gen.Bitfield_bytes a') with (bf_bytes (bf_abs a')). rewrite E'.
+    unfold difference_inplace. cbn [bf_bytes]. apply bit_at_diff_bytes.
+Qed.
+
 (** ** C10: the manual container encoder, as written in the source *)
 
 Fixpoint gen_appends (s : Gen.SszEncoder) (items : list (bool * (bytes -> bytes))) : outcome Gen.SszEncoder :=
@@ -203,3 +242,5 @@ Print Assumptions Src_C11_get.
 Print Assumptions Src_C11_set.
 Print Assumptions Src_C13_from_raw_bytes.
 Print Assumptions Src_C10_encoder_any_history.
+Print Assumptions Src_C11_shift_up.
+Print Assumptions Src_C12_difference_inplace.
